@@ -510,7 +510,7 @@ Definition step_gen (asis : bool) (s : state) (o : op) : state * outcome :=
         else finish_make s (alloc_param_gen (negb asis) t (KCorrelated o Unsolved) fl) (fun t => hold t o)
     end
   | ODeleteParam h =>
-    if (h <? 3)%Z then (s, ok_int 0)
+    if ((0 <=? h)%Z && (h <? 3)%Z)%bool then (s, ok_int 0)      (* predefined: nothing to do *)
     else match get_param t h with
          | None => (s, fail_usage)
          | Some (n, p) => let '(t1, f1) := delete_release t n p in
